@@ -329,11 +329,11 @@ fn scn_streamcomp(o: &Opts, tr: &mut Tr, prop: &str) {
     // where TLC judges it like any other
     let nbulk = if o.thorough { 5000 } else { 600 };
     for bi in 0..nbulk {
-        let kind = ["litmatch", "litmatch", "mixed", "text", "sparse3", "alpha4"][bi % 6];
-        let size = [60_000usize, 130_000, 200_000, 90_000][bi % 4] + r.gen_range(0..5000);
+        let kind = ["litmatch", "litmatch", "mixed", "text", "sparse3", "alpha4", "runs", "period3", "zeros"][bi % 9];
+        let size = [60_000usize, 130_000, 200_000, 90_000, 32_768, 65_536, 33_000][bi % 7] + r.gen_range(0..5000) * (bi % 3);
         let data = gen::data(kind, size, &mut r);
-        let lvl = [4u8, 5, 6, 7, 8, 9, 10, 1, 2, 3][bi % 10];
-        let cfg = Cfg { zlib: bi % 2 == 1, level: lvl, strat: [0usize, 0, 0, 1, 4][bi % 5], wbits: 15, api: "params" };
+        let lvl = [4u8, 5, 6, 7, 8, 9, 10, 1, 2, 3, 0][bi % 11];
+        let cfg = Cfg { zlib: bi % 2 == 1, level: lvl, strat: [0usize, 0, 3, 1, 4, 2, 0, 3][bi % 8], wbits: [15u8, 15, 15, 12, 9][bi % 5], api: "params" };
         let sch = Sched { chunk_pat: ["fixed500", "rand", "fixed4096", "fixed77"][bi % 4].into(),
                           outs: [vec![128], vec![64, 500], vec![1000, 85195], vec![7, 4096, 100000]][(bi / 2) % 4].clone(),
                           flush_pct: [0, 0, 3, 10][bi % 4], flush_set: vec![2, 3, 7, 1], callback: false, max_points: 0 };
